@@ -369,4 +369,30 @@ theorem genForm_np (hs : ∀ a, NoPanic (sub a)) (nameOk : String → Bool) (hea
   refine np_ite (genPackage_np hs args) ?_
   exact np_ite (genReturn_np hs args) (np_pure _)
 
+theorem genAssignment_np (hs : ∀ a, NoPanic (sub a)) (p : PairShape) (pos : Nat) (hp : p.proper = true) :
+    NoPanic (genAssignment sub p pos) := by
+  unfold genAssignment
+  refine np_bind ?_ (fun _ _ => ?_)
+  · unfold listToArrayOrPanic
+    rw [if_pos hp]
+    exact np_pure _
+  refine np_bind ?_ (fun _ _ => ?_)
+  · exact np_guard
+  refine np_bind ?_ (fun _ _ => hs _)
+  exact np_guard
+
+/-- The pair case of `Generate`: the only caller of the panic-capable `GenerateAssignment` is
+dominated by the proper-list test, so no pair — proper or dotted, with or without `=`/`:=`
+elements — reaches the `panicOn`. -/
+theorem genPair_np (hs : ∀ a, NoPanic (sub a)) (p : PairShape) : NoPanic (genPair sub p) := by
+  unfold genPair
+  split
+  · rename_i hp
+    split
+    · split
+      · exact genAssignment_np hs p _ hp
+      · exact hs _
+    · exact hs _
+  · exact np_pure _
+
 end ZygoVerif.GenSites
